@@ -84,7 +84,8 @@ def handle (op : String) (j : Json) : Option Json :=
     -- tracked beyond the baseline, nothing pooled beyond the baseline
     -- programs that carry an expected manifestation (`"expect"`) must also produce exactly that
     let base : List (String × Json) :=
-      [("tracked_leaked", toJson (0 : Nat)), ("pool_leaked", toJson (0 : Nat)), ("panic", toJson false)]
+      [("tracked_leaked", toJson (0 : Nat)), ("retained_after_first", toJson (0 : Nat)),
+       ("pool_leaked", toJson (0 : Nat)), ("panic", toJson false)]
     -- programs that declare how the evaluation must end (`"class"`: ok / error class) must end so
     let base := base ++ (match str? j "class" with | some c => [("class", Json.str c)] | none => [])
     match str? j "expect" with
